@@ -58,7 +58,12 @@ func (v *Validator) Valid(e *gram.Expr, n parsley.Node, i int) bool {
 	switch e.K {
 	case gram.T:
 		t, ok := n.(*ast.TerminalNode)
-		if !ok || t.Token() != string(e.Ch) {
+		if ok && t.Token() != string(e.Ch) {
+			// built under another token name (impl.Tokens)? then it is identified by its value
+			r, isRune := t.Value().(rune)
+			ok = Tokens != nil && isRune && r == rune(e.Ch)
+		}
+		if !ok {
 			return v.fail("expected terminal %q", string(e.Ch))
 		}
 		if r, ok := t.Value().(rune); !ok || r != rune(e.Ch) {
